@@ -203,6 +203,13 @@ func findInlineNode(file *ast.File, comment *ast.Comment, fset *token.FileSet) (
 		}
 	}
 
+	// ... and so is a comment between the keyword and the name ("package // @ignore CODE", name on the next line)
+	if file.Name != nil && commentPos > file.Package && commentPos < file.Name.Pos() && lineOf(file.Package) == commentLine {
+		if fileContent := fset.File(commentPos); fileContent != nil {
+			return fileContent.LineStart(commentLine), comment.End(), true
+		}
+	}
+
 	// If no declaration found, not inline
 	if idx >= len(file.Decls) {
 		return 0, 0, false
